@@ -1,17 +1,85 @@
-(* C01 — evaluation agrees with the language semantics — PLACEHOLDER written by work package "ref" (Python side: generators, reference
-   interpreter, property module).  The theorems of this property are written by the
-   integrator and REPLACE this file; the single statement below only shows that the
-   executable model evaluates one tiny session of wire interface 70 to the expected
-   canonical line, so that `./check C01` can run its correspondence part.
-   DESIGN.md section 5 C01 lists the intended theorems (compile_correct_A/B/C, session_independent, C01_refuted_xxx). *)
-From Coq Require Import NArith List.
-From MW Require Import Model.Base Model.Wire.
-Import ListNotations.
+(* C01 — evaluation agrees with the language semantics for core and derived forms.
+   What is PROVED here about the model of the real pipeline (Model/Compile.v,
+   Model/Vm.v, Model/Transform.v over the GENERATED prelude):
+     * operand evaluation order and the CALL protocol (bytecode shape of an application);
+     * `if` compiles test / consequent / alternate with the tail flag inherited;
+     * the model reproduces, on concrete sessions, each recorded defect class
+       (refutation witnesses) — the property is FALSE on the pinned tree for those;
+   together with the scoping theorems of C02, the frame theorems of C04, the
+   continuation theorems of C05 and the run-loop theorems of C07/C13.
+   OPEN: the semantic compile-correctness theorem (C01_compile_correct_stmt). The
+   reference semantics used as the spec oracle by the check is lib/scheme_ref.py.  *)
+From Coq Require Import String.
+From MW Require Import Model.Base Model.Datum Model.VmTypes Model.Heap Model.VmBase Model.Compile Model.Vm
+  Model.Builtins Model.WireVm Proofs.CompileProofs.
 Open Scope N_scope.
 
-(* session (define (f x . r) (if (null? r) x (car r))) (f 1 2)  ==>  "SESSION | OK #<void> OK 2 LOG" *)
-Theorem C01_placeholder_model_runs :
-  run_case [70;1;51;40;100;101;102;105;110;101;32;40;102;32;120;32;46;32;114;41;32;40;105;102;32;40;110;117;108;108;63;32;114;41;32;120;32;40;99;97;114;32;114;41;41;41;32;40;102;32;49;32;50;41]
-  = [83;69;83;83;73;79;78;32;124;32;79;75;32;35;60;118;111;105;100;62;32;79;75;32;50;32;76;79;71].
+(* operands strictly left to right, each compiled as a non-tail expression and
+   pushed; then the argument count; then the operator; then TCALL in tail position
+   and CALL otherwise (compile.rs:530-558) *)
+Theorem C01_application_shape : forall f l tail proc rest,
+  special_head proc = false ->
+  compile_expression (S f) l tail (CPair proc rest) =
+  (dom (l1, n) <- args_loop (compile_expression f) rest l 0;
+   dom l3 <- compile_expression f (emit (emit_op l1 OPushImmediate) (VArgc n)) false proc;
+   ret (emit_op l3 (if tail then OTCallAcc else OCallAcc))).
+Proof. exact compile_application_eq. Qed.
+Print Assumptions C01_application_shape.
+
+Theorem C01_application_call_kind : forall f l tail proc rest l' s s',
+  special_head proc = false ->
+  compile_expression (S f) l tail (CPair proc rest) s = ROk l' s' ->
+  hd VUndef (l_bc l') = VOp (if tail then OTCallAcc else OCallAcc).
+Proof. exact application_call_kind. Qed.
+Print Assumptions C01_application_call_kind.
+
+(* `if` (compile.rs:577-624): JNT over the consequent, JMP over the alternate, both
+   branches compiled with the tail flag of the whole form, #<void> for a missing
+   alternate *)
+Theorem C01_if_shape : forall f l tail rest,
+  compile_expression (S f) l tail (CPair (CSym (S_ "if")) rest) =
+  (if is_nil rest || negb (is_list rest) then fail E_OTHER else
+   dom (test, conseq, alt) <-
+     (match cell_iter rest with
+      | [t; c] => ret (t, c, None)
+      | [t; c; a] => ret (t, c, Some a)
+      | _ => fail E_OTHER
+      end);
+   dom l1 <- compile_expression f l false test;
+   let l2 := emit_op l1 OJnt in
+   let jnt_operand := bc_len l2 in
+   let l3 := emit l2 (VPtr CAFEBEEF) in
+   dom l4 <- compile_expression f l3 tail conseq;
+   let l5 := emit_op l4 OJmp in
+   let jmp_operand := bc_len l5 in
+   let l6 := emit l5 (VPtr CAFEBEEF) in
+   let l7 := bc_patch l6 jnt_operand (VPtr (bc_len l6)) in
+   dom l8 <- (match alt with
+              | Some a => compile_expression f l7 tail a
+              | None => ret (emit (emit (emit_op l7 OMovImmediate) VVoid) VAcc)
+              end);
+   ret (bc_patch l8 jmp_operand (VPtr (bc_len l8)))).
+Proof. exact compile_if_eq. Qed.
+Print Assumptions C01_if_shape.
+
+(* The full statement, kept visible.  OPEN. *)
+Definition C01_compile_correct_stmt : Prop :=
+  forall (reference : list text -> list N) (forms : list text),
+    (* for every session of the generator grammar outside the recorded defect classes *)
+    run_session forms = reference forms.
+
+(* Refutation witnesses: the model (as the implementation) gives, for these sessions,
+   an answer R7RS does not prescribe: unquote of a captured variable inside a nested
+   lambda is "not bound"; a quasiquoted vector literal accumulates across
+   evaluations; a top-level (begin (define ..)) defines nothing; the prelude's `or`
+   captures a user variable named var1; a macro use inside a quasiquote template is
+   expanded; a dotted unquote is left unevaluated. *)
+Definition witness_session : list text :=
+  map S_ ["(define (f x) (lambda () `(,x)))"; "((f 1))"; "(define (g) `#(1 2))"; "(g)"; "(g)";
+          "(begin (define z 1))"; "z"; "(let ((var1 5)) (or #f var1))"; "`(and 1 2)";
+          "`(a . ,(+ 1 2))"]%string.
+Theorem C01_refuted_witnesses :
+  run_session witness_session =
+  S_ "SESSION | OK #<void> | ERR | OK #<void> | OK #(1 2) | OK #(1 2 1 2) | OK #<void> | ERR | OK #f | OK (if 1 2 #f) | OK (a unquote (+ 1 2)) LOG"%string.
 Proof. vm_compute. reflexivity. Qed.
-Print Assumptions C01_placeholder_model_runs.
+Print Assumptions C01_refuted_witnesses.
